@@ -283,3 +283,462 @@ func replyKindTable() map[string]replyRow {
 	}
 	return t
 }
+
+// ---------- R16q: quorum decisions go through the joint configuration ----------
+
+var rR16q = RuleRef{Name: "R16q", Doc: "every quorum decision consults the joint configuration: the majority-level deciders (quorum.MajorityConfig.CommittedIndex and .VoteResult) are called only from the JointConfig method of the same name, which combines both halves (R16g). A direct call from the tracker or the raft state machine -- a fast path that looks at the incoming majority only -- commits or elects with a quorum the outgoing configuration has not agreed to", Run: func(c *C) {
+	tracked := map[string]bool{"CommittedIndex": true, "VoteResult": true}
+	n := 0
+	var bad []string
+	for _, pkg := range []string{raftPkg, quorumPkg, "go.etcd.io/etcd/raft/v3/tracker", "go.etcd.io/etcd/raft/v3/confchange", "raftexample", "server"} {
+		for _, fn := range c.P.allFuncs(pkg) {
+			for _, b := range fn.Blocks {
+				for _, in := range b.Instrs {
+					ci, ok := in.(ssa.CallInstruction)
+					if !ok {
+						continue
+					}
+					cf := callee(ci)
+					if cf == nil || cf.Signature.Recv() == nil || !tracked[cf.Name()] || namedOf(cf.Signature.Recv().Type()) != "MajorityConfig" {
+						continue
+					}
+					if cf.Pkg == nil || cf.Pkg.Pkg.Path() != quorumPkg {
+						continue
+					}
+					n++
+					root := fn
+					for root.Parent() != nil {
+						root = root.Parent()
+					}
+					if root.Signature.Recv() != nil && namedOf(root.Signature.Recv().Type()) == "JointConfig" && root.Name() == cf.Name() {
+						continue
+					}
+					bad = append(bad, c.pos(in.Pos())+": "+fnName(fn)+" calls MajorityConfig."+cf.Name()+" directly")
+				}
+			}
+		}
+	}
+	c.Add("R16q", "quorum", "MajorityConfig deciders are reached only through JointConfig", token.NoPos, len(bad) == 0, strings.Join(uniq(bad), "; "))
+	c.Count("R16q_majority_calls", n)
+	c.Min("R16q_majority_calls", 4)
+}}
+
+// ---------- R16u: log entries that were handed out are never overwritten in place ----------
+
+// fieldReslice reports whether v derives from a slice held in a struct field (possibly through first-party helpers that
+// return part of such a field) and whether a re-slice with an upper bound lies on the way.
+func fieldReslice(v ssa.Value, seen map[ssa.Value]bool, depth int) (fromField, cut bool) {
+	if seen[v] || depth > 3 {
+		return false, false
+	}
+	seen[v] = true
+	switch x := v.(type) {
+	case *ssa.Slice:
+		f, k := fieldReslice(x.X, seen, depth)
+		return f, k || x.High != nil
+	case *ssa.UnOp:
+		if x.Op == token.MUL {
+			if _, ok := x.X.(*ssa.FieldAddr); ok {
+				return true, false
+			}
+		}
+	case *ssa.Phi:
+		for _, e := range x.Edges {
+			f, k := fieldReslice(e, seen, depth)
+			if f {
+				fromField = true
+				cut = cut || k
+			}
+		}
+		return
+	case *ssa.Call:
+		cf := callee(x)
+		if cf == nil || !strings.Contains(cf.String(), "etcd/raft") || len(cf.Blocks) == 0 {
+			return false, false
+		}
+		for _, b := range cf.Blocks {
+			if ret, ok := b.Instrs[len(b.Instrs)-1].(*ssa.Return); ok && len(ret.Results) > 0 {
+				f, k := fieldReslice(ret.Results[0], seen, depth+1)
+				if f {
+					fromField = true
+					cut = cut || k
+				}
+			}
+		}
+		return
+	case *ssa.Extract:
+		if call, ok := x.Tuple.(*ssa.Call); ok {
+			cf := callee(call)
+			if cf == nil || !strings.Contains(cf.String(), "etcd/raft") || len(cf.Blocks) == 0 {
+				return false, false
+			}
+			for _, b := range cf.Blocks {
+				if ret, ok := b.Instrs[len(b.Instrs)-1].(*ssa.Return); ok && len(ret.Results) > x.Index {
+					f, k := fieldReslice(ret.Results[x.Index], seen, depth+1)
+					if f {
+						fromField = true
+						cut = cut || k
+					}
+				}
+			}
+		}
+		return
+	}
+	return false, false
+}
+
+var rR16u = RuleRef{Name: "R16u", Doc: "log entries that were handed out are never overwritten in place: in package raft no append writes behind an upper-bounded re-slice (s[:k], s[a:b]) of an entry slice kept in a struct field (unstable.entries, MemoryStorage.ents, reached directly or through a helper such as unstable.slice). Ready.Entries and outgoing MsgApp messages alias those backing arrays while the application is still persisting or sending them; a conflicting append that truncates must copy first (append([]pb.Entry{}, kept...)), appending to the whole slice only writes beyond its length and is fine", Run: func(c *C) {
+	n := 0
+	var bad []string
+	for _, fn := range c.P.allFuncs(raftPkg) {
+		for _, b := range fn.Blocks {
+			for _, in := range b.Instrs {
+				ap, ok := isAppend2(in)
+				if !ok || len(ap.Call.Args) < 2 {
+					continue
+				}
+				st, ok := ap.Type().Underlying().(*types.Slice)
+				if !ok || namedOf(st.Elem()) != "Entry" {
+					continue
+				}
+				n++
+				if cst, ok := ap.Call.Args[1].(*ssa.Const); ok && cst.IsNil() {
+					continue
+				}
+				if f, cut := fieldReslice(ap.Call.Args[0], map[ssa.Value]bool{}, 0); f && cut {
+					bad = append(bad, c.pos(ap.Pos())+": "+fnName(fn)+" appends onto a truncated view of a stored entry slice without copying it")
+				}
+			}
+		}
+	}
+	c.Add("R16u", "raft", "a truncating append of log entries copies the kept prefix", token.NoPos, len(bad) == 0, strings.Join(uniq(bad), "; "))
+	c.Count("R16u_entry_appends", n)
+	c.Min("R16u_entry_appends", 6)
+}}
+
+func isAppend2(in ssa.Instruction) (*ssa.Call, bool) {
+	v, ok := in.(ssa.Value)
+	if !ok {
+		return nil, false
+	}
+	return isAppend(v)
+}
+
+// ---------- R9w: what a stored value owns is written only by the value's own methods ----------
+
+// ownedBy reports whether v is (an alias of) a slice or map held in a field of a memdb record that makes up a stored
+// value: a load of such a field, or the result of a first-party method all of whose returns are such loads of its receiver.
+func (c *C) ownedBy(v ssa.Value, seen map[ssa.Value]bool, depth int) (string, bool) {
+	if seen[v] || depth > 3 {
+		return "", false
+	}
+	seen[v] = true
+	memdbRecord := func(t types.Type) (string, bool) {
+		n, ok := derefNamed(t)
+		if !ok || n.Obj().Pkg() == nil || n.Obj().Pkg().Path() != ModPath+"/memdb" {
+			return "", false
+		}
+		if _, isStruct := n.Underlying().(*types.Struct); !isStruct {
+			return "", false
+		}
+		switch n.Obj().Name() {
+		case "MemDb", "ConcurrentMap", "shard", "Locks", "ChanMap", "Chan", "TTLInfo", "command":
+			return "", false // infrastructure with its own locking rules (R15, R17, R6w)
+		}
+		return n.Obj().Name(), true
+	}
+	switch x := v.(type) {
+	case *ssa.Slice:
+		return c.ownedBy(x.X, seen, depth)
+	case *ssa.ChangeType:
+		return c.ownedBy(x.X, seen, depth)
+	case *ssa.Phi:
+		for _, e := range x.Edges {
+			if o, ok := c.ownedBy(e, seen, depth); ok {
+				return o, true
+			}
+		}
+	case *ssa.UnOp:
+		if x.Op != token.MUL {
+			return "", false
+		}
+		if fa, ok := x.X.(*ssa.FieldAddr); ok {
+			switch x.Type().Underlying().(type) {
+			case *types.Slice, *types.Map:
+				if rec, ok := memdbRecord(fa.X.Type()); ok {
+					return rec + "." + fieldName(fa), true
+				}
+			}
+		}
+	case *ssa.Call:
+		cf := callee(x)
+		if cf == nil || !firstParty(cf) || len(cf.Blocks) == 0 || cf.Signature.Recv() == nil {
+			return "", false
+		}
+		if _, ok := memdbRecord(cf.Signature.Recv().Type()); !ok {
+			return "", false
+		}
+		owner, all, any := "", true, false
+		for _, b := range cf.Blocks {
+			ret, ok := b.Instrs[len(b.Instrs)-1].(*ssa.Return)
+			if !ok || len(ret.Results) != 1 {
+				continue
+			}
+			any = true
+			o, ok := c.ownedBy(ret.Results[0], seen, depth+1)
+			if !ok {
+				all = false
+			}
+			owner = o
+		}
+		if any && all {
+			return owner + " (returned by " + cf.Name() + ")", true
+		}
+	}
+	return "", false
+}
+
+var libraryInPlace = map[string]map[int]bool{
+	"sort.Strings": {0: true}, "sort.Ints": {0: true}, "sort.Float64s": {0: true}, "sort.Slice": {0: true}, "sort.SliceStable": {0: true}, "sort.Sort": {0: true}, "sort.Stable": {0: true},
+	"slices.Sort": {0: true}, "slices.SortFunc": {0: true}, "slices.SortStableFunc": {0: true}, "slices.Reverse": {0: true},
+	"math/rand.Shuffle": {}, "strconv.AppendInt": {0: true}, "strconv.AppendFloat": {0: true}, "strconv.AppendQuote": {0: true},
+}
+
+var rR9w = RuleRef{Name: "R9w", Doc: "what a stored value owns is written only by the value's own methods: a slice or map held in a field of a record that makes up a stored value (list, set, hash, sorted-set node, tree node, stream), obtained by a field load or through a getter that returns the field itself, is never written in place by an executor or a free helper -- no element store, no map update or delete, no in-place library call (sort.*, slices.Sort/Reverse, copy into it, strconv.Append*), no call of a first-party function that writes through that parameter. The lock rules (R15) and the read-only rule (R11e) reason about the value's mutator methods; a write through an alias escapes both (a read command that reverses a cached member list in place changes what every later read returns)", Run: func(c *C) {
+	n := 0
+	for _, fn := range c.P.allFuncs("memdb") {
+		root := fn
+		for root.Parent() != nil {
+			root = root.Parent()
+		}
+		if root.Signature.Recv() != nil {
+			continue // methods are the owners' own code (R20a/n/t/v and the mutator summaries deal with them)
+		}
+		var bad []string
+		// a named free function that is handed the record is part of the record's implementation (insert(tree, ..),
+		// deleteNode(tree, ..)): its writes are summarised as mutator effects on that parameter and judged at the call sites
+		implOf := func(v ssa.Value) bool {
+			if fn.Parent() != nil || c.Facts.ExecNames[fn] != nil {
+				return false
+			}
+			r := rootOf(v)
+			if r < 0 || r >= len(fn.Params) {
+				return false
+			}
+			n, ok := derefNamed(fn.Params[r].Type())
+			return ok && n.Obj().Pkg() != nil && n.Obj().Pkg().Path() == ModPath+"/memdb"
+		}
+		flag := func(pos token.Pos, v ssa.Value, how string) {
+			if implOf(v) {
+				return
+			}
+			if o, ok := c.ownedBy(v, map[ssa.Value]bool{}, 0); ok {
+				bad = append(bad, fmt.Sprintf("%s: %s %s", c.pos(pos), o, how))
+			}
+		}
+		for _, b := range fn.Blocks {
+			for _, in := range b.Instrs {
+				switch x := in.(type) {
+				case *ssa.Store:
+					if ia, ok := x.Addr.(*ssa.IndexAddr); ok {
+						if _, isSl := ia.X.Type().Underlying().(*types.Slice); isSl {
+							n++
+							flag(x.Pos(), ia.X, "is assigned to element-wise")
+						}
+					}
+				case *ssa.MapUpdate:
+					n++
+					flag(x.Pos(), x.Map, "is updated")
+				case ssa.CallInstruction:
+					cc := x.Common()
+					if bi, ok := cc.Value.(*ssa.Builtin); ok {
+						switch bi.Name() {
+						case "delete", "copy", "clear":
+							n++
+							flag(in.Pos(), cc.Args[0], "is the target of "+bi.Name()+"()")
+						case "append":
+							// appending onto an upper-bounded re-slice overwrites elements behind the cut
+							if sl, ok := cc.Args[0].(*ssa.Slice); ok && sl.High != nil {
+								n++
+								flag(in.Pos(), sl, "is appended onto behind a cut")
+							}
+						}
+						continue
+					}
+					cf := callee(x)
+					if cf == nil {
+						continue
+					}
+					if firstParty(cf) {
+						for i, a := range cc.Args {
+							switch a.Type().Underlying().(type) {
+							case *types.Slice, *types.Map:
+								if c.mutates(cf, i) {
+									n++
+									flag(in.Pos(), a, "is handed to "+cf.Name()+", which writes through that parameter")
+								}
+							}
+						}
+						continue
+					}
+					name := cf.String()
+					if cf.Pkg != nil {
+						name = cf.Pkg.Pkg.Path() + "." + cf.Name()
+					}
+					if i := strings.Index(name, "["); i > 0 {
+						name = name[:i]
+					}
+					if m, ok := libraryInPlace[name]; ok {
+						for i, a := range cc.Args {
+							if m[i] || len(m) == 0 {
+								n++
+								flag(in.Pos(), a, "is handed to "+name+", which works in place")
+							}
+						}
+					}
+				}
+			}
+		}
+		if len(bad) > 0 || c.Facts.ExecNames[root] != nil {
+			c.Add("R9w", fnName(fn), "state owned by stored values is not written in place outside their methods", fn.Pos(), len(bad) == 0, strings.Join(uniq(bad), "; "))
+		}
+	}
+	c.Count("R9w_write_sites_examined", n)
+	c.Min("R9w_write_sites_examined", 10)
+}}
+
+// ---------- R22e: EXPIRE's options act under their stated condition ----------
+
+var rR22e = RuleRef{Name: "R22e", Doc: "EXPIRE's options act only under their stated condition: in the function that compares an option word with the constants nx/xx/gt/lt and installs a deadline (SetTTL), every path to the SetTTL call that took the `nx` arm passed the failed lookup of the current deadline, every `xx` path the successful lookup, every `gt` path the successful lookup AND a comparison with the stored deadline, every `lt` path either the failed lookup (a key without a deadline counts as an infinite one) or such a comparison. Decided path by path; a function in which the option words are not compared on the way to SetTTL is not judged", Run: func(c *C) {
+	setTTL := c.P.Func("memdb", "MemDb.SetTTL")
+	if setTTL == nil {
+		c.Undecided("R22e", "anchor SetTTL")
+		return
+	}
+	condNameOK = true
+	defer func() { condNameOK = false }()
+	n := 0
+	for _, fn := range c.P.allFuncs("memdb") {
+		var sites []*ssa.Call
+		words := map[string]bool{}
+		for _, b := range fn.Blocks {
+			for _, in := range b.Instrs {
+				if call, ok := in.(*ssa.Call); ok && callee(call) == setTTL {
+					sites = append(sites, call)
+				}
+				if bo, ok := in.(*ssa.BinOp); ok && (bo.Op == token.EQL || bo.Op == token.NEQ) {
+					for _, side := range []ssa.Value{bo.X, bo.Y} {
+						if s, ok := constString(side); ok {
+							switch strings.ToLower(s) {
+							case "nx", "xx", "gt", "lt":
+								words[strings.ToLower(s)] = true
+							}
+						}
+					}
+				}
+			}
+		}
+		if len(sites) == 0 || !(words["gt"] && words["lt"]) {
+			continue
+		}
+		// comparisons that involve the stored deadline (a load of TTLInfo's integer field, possibly through phis / locals)
+		deadlineCmp := map[string]bool{}
+		{
+			derived := map[ssa.Value]bool{}
+			for changed := true; changed; {
+				changed = false
+				for _, b := range fn.Blocks {
+					for _, in := range b.Instrs {
+						v, ok := in.(ssa.Value)
+						if !ok || derived[v] {
+							continue
+						}
+						switch x := in.(type) {
+						case *ssa.UnOp:
+							if fa, ok := x.X.(*ssa.FieldAddr); ok && x.Op == token.MUL && namedOf(fa.X.Type()) == "TTLInfo" && isIntType(x.Type()) {
+								derived[v], changed = true, true
+							}
+						case *ssa.Phi:
+							for _, e := range x.Edges {
+								if derived[e] {
+									derived[v], changed = true, true
+								}
+							}
+						case *ssa.Call:
+							// a getter of the deadline
+							if cf := callee(x); cf != nil && cf.Signature.Recv() != nil && namedOf(cf.Signature.Recv().Type()) == "TTLInfo" && isIntType(x.Type()) {
+								derived[v], changed = true, true
+							}
+						}
+					}
+				}
+			}
+			for _, b := range fn.Blocks {
+				for _, in := range b.Instrs {
+					if bo, ok := in.(*ssa.BinOp); ok && (derived[bo.X] || derived[bo.Y]) {
+						switch bo.Op {
+						case token.LSS, token.GTR, token.LEQ, token.GEQ:
+							if n, _ := condName(bo); n != "" {
+								deadlineCmp[n] = true
+							}
+						}
+					}
+				}
+			}
+		}
+		of := c.orderFlow(fn, nil, true, "T|cmp:*", "F|cmp:*", "T|ok:*", "F|ok:*")
+		var bad []string
+		ltOnPersistent := false
+		for _, call := range sites {
+			states, live := of.States(call)
+			if !live {
+				continue
+			}
+			for _, st := range states {
+				opt := ""
+				okT, okF, cmpDeadline := false, false, false
+				for f := range st {
+					lf := strings.ToLower(f)
+					for _, w := range []string{"nx", "xx", "gt", "lt"} {
+						if strings.HasPrefix(f, "T|cmp:") && strings.Contains(lf, "\""+w+"\"==") {
+							opt = w
+						}
+					}
+					if strings.HasPrefix(f, "T|ok:") {
+						okT = true
+					}
+					if strings.HasPrefix(f, "F|ok:") {
+						okF = true
+					}
+					if (strings.HasPrefix(f, "T|cmp:") || strings.HasPrefix(f, "F|cmp:")) && deadlineCmp[f[2:]] {
+						cmpDeadline = true
+					}
+				}
+				if opt == "" {
+					continue
+				}
+				n++
+				good := false
+				switch opt {
+				case "nx":
+					good = okF && !okT
+				case "xx":
+					good = okT && !okF
+				case "gt":
+					good = okT && !okF && cmpDeadline
+				case "lt":
+					good = (okF && !okT) || (okT && cmpDeadline)
+				}
+				if opt == "lt" && okF && !okT {
+					ltOnPersistent = true
+				}
+				if !good {
+					bad = append(bad, fmt.Sprintf("%s: a path of the %s arm reaches SetTTL with lookup ok=%v failed=%v deadline-comparison=%v", c.pos(call.Pos()), strings.ToUpper(opt), okT, okF, cmpDeadline))
+				}
+			}
+		}
+		c.Add("R22e", fnName(fn), "NX/XX/GT/LT install the deadline only under their stated condition", fn.Pos(), len(bad) == 0, strings.Join(uniq(bad), "; "))
+		c.Add("R22e", fnName(fn), "LT installs a deadline on a key that has none (no deadline counts as an infinite one)", fn.Pos(), ltOnPersistent, "no path of the LT arm reaches SetTTL after a failed lookup of the current deadline")
+	}
+	c.Count("R22e_option_paths", n)
+}}
